@@ -134,7 +134,8 @@ def run_until_crash(cv, args, case, crash):
         if crash[0] == 'start' and crash[1] in started and crash[1] not in opened:
             bd = cv.builddirs()
             rows = abstract_rows(cv, bd[0]) if bd else []
-            if any(r['name'] == crash[1] and r['exit'] == -1 for r in rows):
+            # the first record of that step has been written (whatever it says) and its command is running
+            if any(r['name'] == crash[1] for r in rows):
                 cv.kill_all(proc)
                 crashed = True
                 break
@@ -238,6 +239,26 @@ def part_b(ctx, impl, drv, res, n):
             if ok != '1' or rerun:
                 res.oracle_failures.append({'case': case, 'signature': 'resume-reexecutes-or-skips',
                                             'what': 'resumed at %s from %s; executed %s; re-ran completed %s' % (got, rows, executed, rerun)})
+            # ground truth from the probes, not from the step file: which commands really ran to their end with status 0
+            # before this resume; the resumed run (when it is not killed again) must execute exactly the other non-skipped
+            # steps, in order, up to and including the first one that fails
+            if not cur['crashed']:
+                truly_done = set()
+                for ph in ob['phases'][:k]:
+                    for t in ph['trace']:
+                        if t[0] == 'end' and t[2] == '0':
+                            truly_done.add(t[1])
+                expect = []
+                for st in case['steps']:
+                    if st['name'] in case['skip'] or st['name'] in truly_done:
+                        continue
+                    expect.append(st['name'])
+                    if st['exit'] != 0:
+                        break
+                if executed != expect:
+                    res.oracle_failures.append({'case': case, 'signature': 'resume-reexecutes-or-skips',
+                                                'what': 'commands that had completed successfully before the resume: %s; the resumed invocation executed %s, expected %s'
+                                                        % (sorted(truly_done), executed, expect)})
             if not cur['crashed']:
                 a2 = common.run_driver(drv, [' '.join(['orch', got] + stoks + row_toks(rows))])[0]
                 mrows, mex = [x.strip() for x in a2.split('|')]
